@@ -17,6 +17,7 @@ import (
 	"github.com/MichaelMure/git-bug/entity"
 	"github.com/MichaelMure/git-bug/query"
 	"github.com/MichaelMure/git-bug/repository"
+	"github.com/MichaelMure/git-bug/util/lamport"
 	"github.com/MichaelMure/git-bug/verifshim/vctl"
 	"github.com/MichaelMure/git-bug/verifshim/vsync"
 
@@ -39,6 +40,10 @@ const (
 	CQuerySearch   Call = "query-search"   // Query with a full-text search term (goes through the search index)
 	CPrefix        Call = "prefix"         // ResolvePrefix(shared[:8])
 	CSnapshot      Call = "snapshot"       // Resolve(shared).Snapshot()
+
+	// calls of the clock scenarios (property C05 under threads): straight on the repository handle
+	CClockInc     Call = "clock-increment" // repo.Increment("bugs-edit")
+	CClockWitness Call = "clock-witness"   // repo.Witness("bugs-edit", value on file before the threads + 10)
 )
 
 // Scenario: what each thread does, and the sub-cache size (0 = default).
@@ -48,6 +53,10 @@ type Scenario struct {
 	Size    int      `json:"size"`
 	Cold    bool     `json:"cold"` // close and reopen the cache before the threads start: nothing is loaded yet
 	IO      bool     `json:"io"`   // local-storage file operations (clock, cache files) are scheduling points too
+	// Clock: the cache is closed and the repository handle reopened (without clock loaders, as the
+	// commands do) before the threads start, so the handle does not know any clock yet; the threads
+	// use the logical clock "bugs-edit" directly and the oracle is the one of property C05
+	Clock bool `json:"clock,omitempty"`
 }
 
 // Issued is one operation a thread tried to record.
@@ -87,6 +96,8 @@ type env struct {
 	// yet, per thread: what is at stake when the execution ends in a deadlock
 	accMu    sync.Mutex
 	accepted map[string]Issued
+
+	clockBase uint64 // clock scenarios: value of the clock file before the threads start
 }
 
 func (e *env) setAccepted(name string, is *Issued) {
@@ -173,6 +184,20 @@ func RunOne(s Scenario, prefix []int, preempt bool, recordSites bool) (res Resul
 	}
 	if s.Size > 0 {
 		c.Bugs().SetCacheSize(s.Size)
+	}
+	if s.Clock {
+		if err := c.Close(); err != nil {
+			return res, err
+		}
+		e.c = nil
+		e.repo, err = repository.OpenGoGitRepo(dir+"/repo", world.Namespace, nil)
+		if err != nil {
+			return res, err
+		}
+		e.clockBase = clockOnFile(dir, clockName)
+		if e.clockBase == 0 {
+			return res, fmt.Errorf("clock scenario: no %s clock file after the set-up", clockName)
+		}
 	}
 
 	// ---- controlled phase
@@ -267,6 +292,11 @@ func RunOne(s Scenario, prefix []int, preempt bool, recordSites bool) (res Resul
 	}
 	if len(res.Panics) > 0 {
 		res.Outcome = "panic"
+		return res, nil
+	}
+	if s.Clock {
+		e.clockOracle(dir, &res, add)
+		closed = true
 		return res, nil
 	}
 
@@ -553,7 +583,10 @@ func blockedSig(blocked []string) string {
 
 // do performs one call on behalf of thread name and reports the operations it issued.
 func (e *env) do(name string, call Call) []Issued {
-	bugs := e.c.Bugs()
+	var bugs *cache.RepoCacheBug
+	if e.c != nil {
+		bugs = e.c.Bugs()
+	}
 	edit := func(id entity.Id, f func(b *cache.BugCache) (entity.Id, error)) []Issued {
 		is := Issued{Thread: name, Call: call, Bug: string(id)}
 		b, err := bugs.Resolve(id)
@@ -587,6 +620,23 @@ func (e *env) do(name string, call Call) []Issued {
 		})
 	}
 	switch call {
+	case CClockInc:
+		is := Issued{Thread: name, Call: call}
+		t, err := e.repo.Increment(clockName)
+		if err != nil {
+			is.Err = err.Error()
+			return []Issued{is}
+		}
+		is.OpId, is.Acked = fmt.Sprint(uint64(t)), true
+		return []Issued{is}
+	case CClockWitness:
+		is := Issued{Thread: name, Call: call, OpId: fmt.Sprint(e.clockBase + 10)}
+		if err := e.repo.Witness(clockName, lamport.Time(e.clockBase+10)); err != nil {
+			is.Err = err.Error()
+			return []Issued{is}
+		}
+		is.Acked = true
+		return []Issued{is}
 	case CNew:
 		is := Issued{Thread: name, Call: call}
 		b, op, err := bugs.New("new by "+name, "message")
@@ -637,3 +687,72 @@ func (e *env) do(name string, call Call) []Issued {
 var _ = identity.Namespace
 var _ = bug.Namespace
 var _ = json.Marshal
+
+// ---- clock scenarios (property C05 under threads) ---------------------------------------------------
+
+const clockName = "bugs-edit"
+
+func clockOnFile(dir, name string) uint64 {
+	for _, cv := range world.ClockValues(dir + "/repo/.git") {
+		if strings.HasPrefix(cv, name+"=") {
+			var v uint64
+			fmt.Sscanf(strings.TrimPrefix(cv, name+"="), "%d", &v)
+			return v
+		}
+	}
+	return 0
+}
+
+// clockOracle: every time handed out by Increment is above everything this repository wrote before
+// and handed out once; when all calls have returned, the clock in memory, the clock file and the
+// clock a restarted process loads are at or above every time handed out or witnessed.
+func (e *env) clockOracle(dir string, res *Result, add func(oracle, sig, format string, a ...any)) {
+	given := map[uint64][]string{}
+	var max uint64
+	var outcome []string
+	for _, is := range res.Issued {
+		if !is.Acked {
+			add("c05.threads", "clock-call-failed/"+string(is.Call), "thread %s: %s returned %s", is.Thread, is.Call, is.Err)
+			continue
+		}
+		var v uint64
+		fmt.Sscanf(is.OpId, "%d", &v)
+		if v > max {
+			max = v
+		}
+		if is.Call == CClockInc {
+			given[v] = append(given[v], is.Thread)
+			if v <= e.clockBase {
+				add("c05.threads", "time-not-above-what-was-stored", "thread %s: Increment returned %d, the clock file held %d before", is.Thread, v, e.clockBase)
+			}
+		}
+		outcome = append(outcome, fmt.Sprintf("%s:%s=%d", is.Thread, is.Call, v-e.clockBase))
+	}
+	for v, who := range given {
+		if len(who) > 1 {
+			sort.Strings(who)
+			add("c05.threads", "same-time-handed-out-twice", "Increment returned %d to %s: two commits of this repository would carry the same logical time", v, strings.Join(who, " and "))
+		}
+	}
+	if clk, err := e.repo.GetOrCreateClock(clockName); err == nil {
+		if uint64(clk.Time()) < max {
+			add("c05.threads", "clock-in-memory-below-a-time-handed-out-or-witnessed", "all calls returned; the clock in memory is %d, a thread was given or witnessed %d", clk.Time(), max)
+		}
+	}
+	if f := clockOnFile(dir, clockName); f < max {
+		add("c05.threads", "clock-file-below-a-time-handed-out-or-witnessed", "all calls returned; the clock file holds %d, a thread was given or witnessed %d (base %d)", f, max, e.clockBase)
+	}
+	_ = e.repo.Close()
+	if r2, err := repository.OpenGoGitRepo(dir+"/repo", world.Namespace, nil); err != nil {
+		add("c05.threads", "reopen-fails", "the repository cannot be opened afterwards: %v", err)
+	} else {
+		if clk, err := r2.GetOrCreateClock(clockName); err != nil {
+			add("c05.threads", "reopen-clock-unreadable", "%v", err)
+		} else if uint64(clk.Time()) < max {
+			add("c05.threads", "clock-after-restart-below-a-time-handed-out-or-witnessed", "after a restart the clock is %d, a thread was given or witnessed %d", clk.Time(), max)
+		}
+		_ = r2.Close()
+	}
+	sort.Strings(outcome)
+	res.Outcome = strings.Join(outcome, " ")
+}
